@@ -52,6 +52,7 @@ type HeapV struct {
 	memo map[string]Term
 	smtFn string
 	memoFrame map[string]bool
+	memoOwn   map[string][]Term // values this function stored itself that the read may yield
 }
 
 type heapCtx struct {
@@ -119,8 +120,16 @@ func (tr *Tr) read(h *HeapV, key ...Term) Term {
 	}
 	t, viaFrame := tr.readRec(h, mk, key)
 	if viaFrame && h.comp.gotype != nil && isInterface(h.comp.gotype) && !tr.quietReads && !tr.openTerm(mk) {
-		// one assumption for the value read (not one per callee frame it may come from)
-		tr.assume(app("valOK", t), "values written by callees satisfy the data invariant")
+		// one assumption for the value read (not one per callee frame it may come from); the values
+		// this function stored itself are excepted: their invariant is what it has to prove
+		alts := []Term{app("valOK", t)}
+		own := h.memoOwn[mk]
+		if len(own) <= 8 {
+			for _, v := range own {
+				alts = append(alts, Eq(t, v))
+			}
+			tr.assume(Or(alts...), "values written by callees satisfy the data invariant")
+		}
 	}
 	return t
 }
@@ -137,9 +146,22 @@ func (tr *Tr) readRec(h *HeapV, mk string, key []Term) (Term, bool) {
 	}
 	var t Term
 	viaFrame := false
+	var own []Term
 	sub := func(h2 *HeapV, key2 ...Term) Term {
-		t2, f := tr.readRec(h2, strings.Join(key2, "\x00"), key2)
+		mk2 := strings.Join(key2, "\x00")
+		t2, f := tr.readRec(h2, mk2, key2)
 		viaFrame = viaFrame || f
+		for _, v := range h2.memoOwn[mk2] {
+			dup := false
+			for _, w := range own {
+				if w == v {
+					dup = true
+				}
+			}
+			if !dup {
+				own = append(own, v)
+			}
+		}
 		return t2
 	}
 	switch h.kind {
@@ -163,6 +185,9 @@ func (tr *Tr) readRec(h *HeapV, mk string, key []Term) (Term, bool) {
 			conds[i] = Eq(key[i], h.key[i])
 		}
 		t = Ite(And(conds...), h.val, sub(h.prev, key...))
+		if h.val != "VNil" {
+			own = append(own, h.val)
+		}
 	case hIte:
 		t = Ite(h.cond, sub(h.a, key...), sub(h.b, key...))
 	case hFrame:
@@ -189,6 +214,12 @@ func (tr *Tr) readRec(h *HeapV, mk string, key []Term) (Term, bool) {
 		h.memoFrame = map[string]bool{}
 	}
 	h.memoFrame[mk] = viaFrame
+	if len(own) > 0 {
+		if h.memoOwn == nil {
+			h.memoOwn = map[string][]Term{}
+		}
+		h.memoOwn[mk] = own
+	}
 	return t, viaFrame
 }
 
